@@ -62,6 +62,15 @@ CLAIMED = {
              "with 1..3 candidate files in every order read back from the output. Not modelled: which files are loaded (C03), visibility merging, versions; undefined-reference rules are checked by two links only.",
         technique="Coq proof by loop invariant over candidate lists + model/implementation correspondence (hook + whole links)",
         design_ref="DESIGN.md §3 C02"),
+    "C15": dict(
+        text="S1 for the rule table: spec = POSIX fnmatch in Gallina; theorems (all rule lists, all names/files): the 4-byte-keyed table returns exactly the first rule in script order whose "
+             "patterns fnmatch, with its KEEP flag, for rule sets of 'good' patterns (four ordinary leading bytes, escape-free) — proved from a general theorem with explicit semantic side conditions, "
+             "plus lemmas: literal prefix determines the key, escape-free glob = fnmatch, plain pattern = equality. Unrestricted statement refuted: 3 known classes with Coq witnesses. "
+             "KEEP => never garbage-collected belongs to C05's roots and is not proved here.",
+        note="Trusted: Coq kernel + vm_compute, no axioms; hand model of glob_match.rs/layout_rules.rs and of the glob crate's matcher (fnmatch without escapes); hashbrown equal-key order = insertion order (validated); "
+             "Gallina fnmatch validated against glibc fnmatch(3); tie through verif_hooks::layout_rules::lookup (real SectionRule::new/from_rules/lookup) under catch_unwind.",
+        technique="Coq proof (structural induction over rule lists and patterns) + model/implementation correspondence by vm_compute",
+        design_ref="DESIGN.md §3 C15"),
 }
 
 PENDING_REASON = "not claimed yet: model/theorems for this property are not built in this revision (see DESIGN.md §8 construction order)"
